@@ -801,3 +801,71 @@ class Gen03(mut_c01.Gen01):
 
 def gen_history(rng, n_ops=30, **kw):
     return mut_c01.gen_history(rng, n_ops, cls=Gen03, init=(2, 4), **kw)
+
+
+# ---------------------------------------------------------------------------------------------------------
+# Tree.load / TypedTree.load as an operation of the mutation machine (Mut/MachineLoad.v): a part attached to
+# C03 (harness/parts.py).  The hand-made node lists run through the implementation (Tree.load of a native
+# file), the independent collision oracle AND the model ([CaseLoad.run_load]: result, full state, wf flag).
+class LoadPart:
+    tag = "load"
+    case_module = "CaseLoad"
+    case_vo = "theories/Cases/CaseLoad.vo"
+    run_fn = "run_load"
+    rule = ("hand-made and generated native node lists (parent index, label | reference) loaded with Tree.load / TypedTree.load: "
+            "outcome (error class) and the whole loaded tree (nodes in creation order, clones, registry, index, parents) equal the "
+            "model's op_load; files with two entries of one data_id under one parent must be refused with UniqueConstraintError "
+            "(oracle computed from the file), all others must load; the model's world stays well-formed")
+
+    def __init__(self, corpus, gen, oracle):
+        self.corpus, self.gen, self.oracle = corpus, gen, oracle
+
+    def descs(self, tier, rng):
+        for c in self.corpus:
+            yield dict(nodes=c["nodes"], typed=False, corpus=c["id"])
+            yield dict(nodes=c["nodes"], typed=True, corpus=c["id"] + "/typed")
+        for i in range(150 if tier == "quick" else 1500):
+            yield dict(nodes=self.gen(rng), typed=(i % 4 == 3))
+
+    def shrink_candidates(self, desc):
+        nodes = desc["nodes"]
+        for i in range(len(nodes) - 1, -1, -1):
+            if any(p == i + 1 or (isinstance(d, int) and not isinstance(d, bool) and d == i + 1) for p, d in nodes):
+                continue
+            rest = [[p - (1 if p > i + 1 else 0), (d - (1 if d > i + 1 else 0)) if isinstance(d, int) else d]
+                    for k, (p, d) in enumerate(nodes) if k != i]
+            yield dict(nodes=rest, typed=desc.get("typed", False))
+
+    def run(self, desc):
+        import io
+        import json
+        import common as H
+        nodes, typed = desc["nodes"], bool(desc.get("typed"))
+        w = mut.World([])
+        cls = H.TypedTree if typed else H.Tree
+        text = json.dumps({"meta": {"$generator": "nutree/0.9.1", "$format_version": "1.0"}, "nodes": nodes})
+        try:
+            t = cls.load(io.StringIO(text))
+            w.trees.append(t)
+            res = [0, [0]]
+        except Exception as e:   # the outcome is an observation
+            t = None
+            res = [1, H.err_class(e)]
+        # data objects in creation order (the library creates them: one str per data entry, clones share theirs)
+        created = [w.raw(k) for k in range(1, w.allocated() + 1)]
+        for nd in created:
+            w.U.index(nd._data)
+        ents = []
+        for k, (pidx, dat) in enumerate(nodes):
+            if isinstance(dat, int) and not isinstance(dat, bool):
+                ents.append(f"(LRef {pidx} {dat})")
+            else:
+                obj = created[k]._data if k < len(created) and created[k]._data == dat else dat
+                a = w.U.info(obj)
+                d = f"(D {H.z(a['obj'])} {H.z(a['eqc'])} {H.z(a['hash'])} {H.coq_bool(a['isstr'])} {H.coq_text(a['name'])})"
+                ents.append(f"(LData {pidx} {d} None None)")
+        term = f"(CLoad {H.coq_bool(typed)} {H.coq_list(ents)})"
+        obs = [res, w.obs(), True]
+        _res, collide, msg = self.oracle(nodes, typed=typed, loaded=(t, res))
+        return H.Case(desc=desc, coq_input=term, impl_obs=obs, oracle_fail=msg, nontrivial=True,
+                      key=H.digest([nodes, typed]), stats=dict(kind="load file", collides=collide, typed=typed, entries=len(nodes) // 3 * 3))
